@@ -1,7 +1,7 @@
-\* negative control: seeded defect "limitsMinOff" must violate the properties (self-test only)
+\* negative control: seeded defect "leafBufReuse" must violate the properties (self-test only)
 SPECIFICATION Spec
 CONSTANTS F = 3
-  Variant = "limitsMinOff"
+  Variant = "leafBufReuse"
   Steps = {2}
   MaxN = 41
 INVARIANTS Valid Faithful FaithfulAnyReader Enumerates EarlyExit ReadersAgree EmptyNoTree RejectsExactly
